@@ -23,6 +23,31 @@ for d in sorted(glob.glob('seeded/*/meta.json')):
                                               m.get('needs', '').replace('|', '/').replace('\n', ' ')[:200], res.replace('|', '/')))
 sec = (open('docs/DESIGN12.tmpl').read().replace('@@FIXED@@', "\n".join(rows)).replace('@@KNOWN@@', "\n".join(known))
        .replace('@@NFIX@@', str(len(seen))).replace('@@SEEDS@@', "\n".join(seeds)))
+import re
+def _obl(m):
+    try:
+        e = json.load(open('evidence/%s.json' % m.group(1)))
+        def find(o, k):
+            if isinstance(o, dict):
+                if k in o:
+                    return o[k]
+                for v in o.values():
+                    r = find(v, k)
+                    if r is not None:
+                        return r
+            if isinstance(o, list):
+                for v in o:
+                    r = find(v, k)
+                    if r is not None:
+                        return r
+            return None
+        n = find(e, 'obligations')
+        if isinstance(n, list):
+            n = len(n)
+        return str(n if n is not None else '?')
+    except Exception:
+        return '?'
+sec = re.sub(r'@@OBL:(C\d\d)@@', _obl, sec)
 if '## 12. As built' in s:
     s = s[:s.index('## 12. As built')].rstrip() + "\n\n"
 else:
